@@ -211,6 +211,14 @@ Theorem C02g_Eq_empty_observation : forall h vl vw n, empty_val vl -> empty_val 
 Proof. exact Eq_empty_observation. Qed.
 Print Assumptions C02g_Eq_empty_observation.
 
+(* different lengths: GtEq on the copies panics when there is a weight, LtEq
+   on the originals when there is none *)
+Theorem C02g_Eq_panics : forall h vl vw ls ws n,
+  int_slice h vl ls -> int_slice h vw ws -> disjoint_vals vl vw -> length ls <> length ws ->
+  exists fuel, run go_funs fuel "Eq" [vl; vw; VInt n] h = OPanic.
+Proof. exact Eq_panics. Qed.
+Print Assumptions C02g_Eq_panics.
+
 (* ------------------------------------------------------------------ the hypotheses are satisfiable, the runs concrete *)
 
 Example C02g_hyps :
